@@ -80,15 +80,49 @@ def run_driver(drv, cmds, rd, tag="t", timeout=1800, env=None):
     e = dict(os.environ)
     if env:
         e.update(env)
-    p = sh([drv, "exec", cf, ef], timeout=timeout, check=False, env=e)
-    if p.returncode != 0:
-        raise Infra("driver died (%d):\n%s" % (p.returncode, p.stdout[-3000:]))
-    evs = []
-    with open(ef) as f:
-        for line in f:
-            evs.append(json.loads(line))
-    if len(evs) != len(cmds):
-        raise Infra("driver produced %d events for %d commands" % (len(evs), len(cmds)))
+    evs, rest, crashes = [], list(cmds), 0
+    while rest:
+        with open(cf, "w") as f:
+            for c in rest:
+                f.write(json.dumps(c, separators=(",", ":")) + "\n")
+        try:
+            p = sh([drv, "exec", cf, ef], timeout=timeout, check=False, env=e)
+            rc, out = p.returncode, p.stdout
+        except subprocess.TimeoutExpired:
+            rc, out = 4, "no progress within %d s" % timeout
+        got = []
+        if os.path.exists(ef):
+            with open(ef) as f:
+                for line in f:
+                    try:
+                        got.append(json.loads(line))
+                    except ValueError:
+                        break                      # a torn last line
+        if rc == 0:
+            if len(got) != len(rest):
+                raise Infra("driver produced %d events for %d commands" % (len(got), len(rest)))
+            evs += got
+            break
+        if rc == 3 or len(got) >= len(rest):
+            raise Infra("driver refused its input (%d):\n%s" % (rc, out[-3000:]))
+        # The process died (fatal error, unrecoverable fault, os.Exit in the library) or a call did not return
+        # (exit 4 of the watchdog): the call that was running is command number len(got).  It is recorded as an
+        # event of its own - the trace specifications judge "did not return" like a panic - and the run resumes
+        # with the next scenario in a fresh process.
+        crashes += 1
+        k = len(got)
+        culprit = dict(rest[k])
+        reason = ("did not return (watchdog)" if rc == 4 else "process died with exit status %d" % rc)
+        tail = [l for l in out.splitlines() if l.strip()][:1] if rc != 4 else []
+        culprit.update(panic="call did not return", fault=False, crashed=reason + (": " + tail[0][:200] if tail else ""))
+        evs += got + [culprit]
+        sc = rest[k].get("sc")
+        j = k + 1
+        while j < len(rest) and rest[j].get("sc") == sc and rest[j].get("op") != "scenario":
+            j += 1
+        rest = rest[j:]
+        if crashes >= 6:      # enough evidence: the remaining commands are not executed (their scenarios are dropped)
+            break
     return evs
 
 
